@@ -3,6 +3,7 @@ They are *support*: they search for a concrete failing input (the replay) and wi
 explored; what is claimed "for all" is what coq/Props/Cnn.v states.  Runs inside the
 implementation process (needs the live summer2 objects)."""
 import math
+import json
 
 import numpy as np
 
@@ -1156,8 +1157,10 @@ def c03(m, o):
                 continue
             if o.get("strain_only") and not any(f.name == name and "Infection" in type(f).__name__ for f in base.flows):
                 continue      # under a strain stratification only the infection flows are claimed to add up
-            sa = sum(fa[i] for i, f in enumerate(strat.flows) if f.name == name)
-            sb = sum(fb[i] for i, f in enumerate(base.flows) if f.name == name)
+            # (a non-infection flow may share the name: under strain only the infection flows are summed)
+            sel = (lambda f: f.name == name and "Infection" in type(f).__name__) if o.get("strain_only") else (lambda f: f.name == name)
+            sa = sum(fa[i] for i, f in enumerate(strat.flows) if sel(f))
+            sb = sum(fb[i] for i, f in enumerate(base.flows) if sel(f))
             checks += 1
             if abs(sa - sb) > 1e-9 * (1 + abs(sb)):
                 viol.append("t=%g: flows named %s add up to %.10g in the stratified model, %.10g unstratified" % (t, name, sa, sb))
@@ -1180,7 +1183,10 @@ def c03(m, o):
                 gentle = False
             yy = yy + h_ / 6 * (k1 + 2 * k2 + 2 * k3 + k4)
 
-    for solver, tol in (() if o.get("strain_only") else (("euler", 1e-9), ("rk4", 1e-9), ("solve_ivp", 5e-3))):
+    # (the error-controlled solver chooses different steps for the two models; its error is only controlled
+    # where the rates are continuous in time, so it is compared on programs without piecewise-constant time functions)
+    adaptive = () if o.get("discontinuous") else (("solve_ivp", 5e-3),)
+    for solver, tol in (() if o.get("strain_only") else (("euler", 1e-9), ("rk4", 1e-9)) + adaptive):
         base.run(p, solver=solver, jit=False, rebuild=True)
         strat.run(p, solver=solver, jit=False, rebuild=True)
         ob, os_ = np.asarray(base.outputs, dtype=float), np.asarray(strat.outputs, dtype=float)
@@ -1262,9 +1268,152 @@ def c15(m, o):
     return {"checks": checks, "violations": viol[:10]}
 
 
+DEFINITION_ATTRS = ["times", "timestep", "compartments", "_infectious_compartments", "_original_compartment_names",
+                    "_stratifications", "flows", "_derived_output_requests", "_derived_outputs_whitelist",
+                    "_mixing_matrices", "_mixing_categories", "_disease_strains", "_default_parameters",
+                    "_array_population", "_computed_values_graph_dict"]
+
+
+def canon(x, depth=0, seen=None):
+    """canonical, comparable picture of a piece of a model definition (cycle- and depth-limited)"""
+    seen = seen if seen is not None else set()
+    if x is None or isinstance(x, (bool, int, str)):
+        return x
+    if isinstance(x, float):
+        return float(x).hex()
+    if isinstance(x, (np.floating, np.integer)):
+        return canon(x.item())
+    if isinstance(x, np.ndarray):
+        return ["ndarray", list(x.shape), [canon(v) for v in x.ravel().tolist()]]
+    if depth > 7:
+        return "<deep>"
+    if isinstance(x, (list, tuple)):
+        return [canon(v, depth + 1, seen) for v in x]
+    if isinstance(x, (set, frozenset)):
+        return sorted((json.dumps(canon(v, depth + 1, seen), sort_keys=True, default=str) for v in x))
+    if isinstance(x, dict):
+        return sorted(([json.dumps(canon(k, depth + 1, seen), sort_keys=True, default=str), canon(v, depth + 1, seen)]
+                       for k, v in x.items()), key=lambda kv: kv[0])
+    if id(x) in seen:
+        return "<cycle %s>" % type(x).__name__
+    if callable(x) and not hasattr(x, "__dict__"):
+        return "<callable %s>" % getattr(x, "__name__", type(x).__name__)
+    d = getattr(x, "__dict__", None)
+    if d is None:
+        return "<%s %s>" % (type(x).__name__, str(x)[:80])
+    seen = seen | {id(x)}
+    if type(x).__name__ in ("CompartmentalModel", "ModelBackend", "ModelResults", "ComputeGraph", "DiGraph", "ModelBuildTracker"):
+        return "<%s>" % type(x).__name__
+    return [type(x).__name__, sorted(([k, canon(v, depth + 1, seen)] for k, v in d.items()
+                                      if not k.startswith("_cache") and k not in ("_graph_key",)), key=lambda kv: kv[0])]
+
+
+def definition_snapshot(m):
+    return {a: canon(getattr(m, a, None)) for a in DEFINITION_ATTRS}
+
+
+def snapshot_diff(a, b):
+    out = []
+    for k in a:
+        if json.dumps(a[k], sort_keys=True, default=str) != json.dumps(b[k], sort_keys=True, default=str):
+            out.append(k)
+    return out
+
+
+def c11(m, o):
+    """histories on the implementation: equal calls give bit-identical results whatever came in between,
+    on a second independently built object too, and the definition and the caller's dictionaries are not altered"""
+    import impl
+    import copy
+    from fractions import Fraction
+    viol, checks = [], 0
+    calls = o["calls"]
+
+    def fl(d):
+        return {k: float(Fraction(v)) for k, v in (d or {}).items()}
+
+    def bits(mm):
+        out = np.asarray(mm.outputs, dtype=float)
+        d = {k: np.asarray(v, dtype=float) for k, v in mm.derived_outputs.items()}
+        return (out.shape, out.tobytes(), tuple(sorted((k, v.shape, v.tobytes()) for k, v in d.items())))
+
+    def execute(order_calls, tag):
+        nonlocal checks
+        mm, err, why = impl.build(dict(o["program"], obs=[]))
+        assert err is None, why
+        seen, handles, snap, defaults = {}, [], None, {}
+        for ci, c in enumerate(order_calls):
+            given = fl(c.get("params"))
+            keep = copy.deepcopy(given)
+            try:
+                if c["call"] == "run":
+                    mm.run(given, solver=c["solver"], rebuild=bool(c.get("rebuild", False)), jit=False)
+                    key = ("model", tuple(sorted({**defaults, **given}.items())))
+                    res = bits(mm)
+                elif c["call"] == "get_runner":
+                    kw = {} if c.get("dyn") is None else {"dyn_params": list(c["dyn"])}
+                    handles.append((mm.get_runner(given, solver=c["solver"], jit=False, **kw), dict(defaults), c))
+                    key = None
+                elif c["call"] == "runner_run":
+                    if c["k"] >= len(handles):
+                        continue
+                    r, dflt, gc = handles[c["k"]]
+                    r.run(given)
+                    frozen = {} if gc.get("dyn") is None else {k: v for k, v in {**dflt, **fl(gc.get("params"))}.items()
+                                                                   if k not in gc["dyn"]}
+                    key = ("runner", gc["solver"], tuple(sorted({**dflt, **given, **frozen}.items())),
+                           None if gc.get("dyn") is None else tuple(sorted(gc["dyn"])))
+                    res = bits(r)
+                    # ModelResults.run also stores the results on the model
+                    if bits(mm) != res:
+                        viol.append("%s call %d: runner.run left different results on the model object" % (tag, ci))
+                elif c["call"] == "set_defaults":
+                    mm.set_default_parameters(given)
+                    defaults = dict(given)
+                    key = None
+            except (KeyboardInterrupt, SystemExit):
+                raise
+            except BaseException as e:  # noqa
+                key, res = None, None
+                seen.setdefault(("error", ci), repr(e)[:100])
+            if given != keep:
+                viol.append("%s call %d (%s): the caller's parameter dictionary was modified" % (tag, ci, c["call"]))
+            if c["call"] == "set_defaults" and mm.get_default_parameters() != keep:
+                viol.append("%s call %d: default parameters differ from what was set" % (tag, ci))
+            if key is not None:
+                checks += 1
+                if key in seen and seen[key][0] != res:
+                    viol.append("%s call %d (%s %s): result differs bitwise from call %d with the same definition and "
+                                "parameter values" % (tag, ci, c["call"], dict(key[1] if key[0] == "model" else key[2]), seen[key][1]))
+                seen.setdefault(key, (res, ci))
+            if mm._finalized:
+                s_now = definition_snapshot(mm)
+                if snap is None:
+                    snap = s_now
+                else:
+                    checks += 1
+                    dd = [a for a in snapshot_diff(snap, s_now) if not (a == "_default_parameters" and c["call"] == "set_defaults")]
+                    if dd:
+                        viol.append("%s call %d (%s): the definition changed: %s" % (tag, ci, c["call"], dd))
+                    snap = s_now
+        return seen
+
+    first = execute(calls, "history")
+    # an independently built object, the run calls alone, in reverse order, each on a rebuilt runner
+    runs = [c for c in calls if c["call"] in ("run", "set_defaults")]
+    second = execute(calls[::-1] if not any(c["call"] in ("set_defaults", "get_runner", "runner_run") for c in calls)
+                     else [dict(c, rebuild=True) if c["call"] == "run" else c for c in calls], "second object")
+    for k, v in first.items():
+        if k[0] in ("model", "runner") and k in second:
+            checks += 1
+            if second[k][0] != v[0]:
+                viol.append("an independently built identical model gives bitwise different results for %s" % (dict(k[1] if k[0] == "model" else k[2]),))
+    return {"checks": checks, "violations": viol[:10]}
+
+
 ORACLES = {"c01": c01, "c02": c02, "c18": c18}
 MODEL_ORACLES = {"c02_traj": c02_traj, "c13": c13, "c12": c12, "c12_dates": c12_dates,
-                 "c07": c07, "c07_closed": c07_closed, "c16": c16, "c14": c14, "c08": c08, "c09": c09, "c10": c10, "c04": c04, "c18_traj": c18_traj, "c06": c06, "c05": c05, "c03": c03, "c15": c15}
+                 "c07": c07, "c07_closed": c07_closed, "c16": c16, "c14": c14, "c08": c08, "c09": c09, "c10": c10, "c04": c04, "c18_traj": c18_traj, "c06": c06, "c05": c05, "c03": c03, "c15": c15, "c11": c11}
 
 
 def run_oracle(m, o):
